@@ -413,37 +413,42 @@ Definition i_plan (tb : list content) : ctor -> list id -> list Z -> plan id :=
   ctor_plan (i_op tb) (i_args tb) (i_ty tb) (i_bvw tb) (i_const tb).
 
 (* ---------------------------------------------------------------- constants *)
-(* formula.py:342-370 *)
+(* a Python Fraction (and the exact value of a finite float) is always in lowest terms with a
+   positive denominator: a PyFrac/PyFloat that is not cannot be named in Python (model-only guard,
+   like the one on ids in create_node) *)
+Definition frac_ok (n d : Z) : bool := (Z.gcd n d =? 1)%Z && (0 <? d)%Z.
+(* formula.py:342-372: the argument is converted FIRST (type test, Fraction(n, d)), the cache is
+   consulted afterwards (commit 7843d1b) *)
 Definition real_val (v : pyval) : res (Z * Z) :=
   match v with
-  | PyFrac n d => Ok (n, d)                       (* is_pysmt_fraction: payload is the value *)
+  | PyFrac n d => if frac_ok n d then Ok (n, d) else Err EBadReq     (* is_pysmt_fraction: payload is the value *)
   | PyPair n d => if (d =? 0)%Z then Err EOth else Ok (fr_norm n d)    (* Fraction(n, d) *)
   | PyInt z => Ok (z, 1%Z)
-  | PyFloat n d => Ok (n, d)                      (* Fraction(float): exact *)
+  | PyFloat n d => if frac_ok n d then Ok (n, d) else Err EBadReq    (* Fraction(float): exact *)
   | PyBool _ | PyStr _ => Err ETyp
   end.
 Definition real (v : pyval) : M id :=
-  fun s => match cache_get v (real_c s) with
-           | Some i => (s, Ok i)
-           | None =>
-               match real_val v with
-               | Err e => (s, Err e)
-               | Ok (n, d) =>
+  fun s => match real_val v with
+           | Err e => (s, Err e)
+           | Ok (n, d) =>
+               match cache_get v (real_c s) with
+               | Some i => (s, Ok i)
+               | None =>
                    bind (create_node (ORealC n d, []))
                         (fun i s1 => (set_real_c s1 ((v, i) :: real_c s1), Ok i)) s
                end
            end.
-(* formula.py:372-388 *)
+(* formula.py:374-393: type test first, cache afterwards (commit 7843d1b) *)
 Definition int (v : pyval) : M id :=
-  fun s => match cache_get v (int_c s) with
-           | Some i => (s, Ok i)
-           | None =>
-               match v with
-               | PyInt z =>
+  fun s => match v with
+           | PyInt z =>
+               match cache_get v (int_c s) with
+               | Some i => (s, Ok i)
+               | None =>
                    bind (create_node (OIntC z, []))
                         (fun i s1 => (set_int_c s1 ((v, i) :: int_c s1), Ok i)) s
-               | _ => (s, Err ETyp)
                end
+           | _ => (s, Err ETyp)
            end.
 (* formula.py:390-403 *)
 Definition str (v : pyval) : M id :=
@@ -578,21 +583,12 @@ Definition array (addr : id -> Z) (it : ty) (d : id) (pairs : list (id * id)) : 
            else (s, Err EVal).
 
 (* ---------------------------------------------------------------- cross-environment copy *)
-Fixpoint ty_has_param_user (t : ty) : bool :=
-  match t with
-  | TBool | TInt | TReal | TStr | TBV _ => false
-  | TArr i e => ty_has_param_user i || ty_has_param_user e
-  | TFun ps r => existsb ty_has_param_user ps || ty_has_param_user r
-  | TUser _ args => match args with [] => false | _ => true end
-  end.
-(* TypeManager.normalize (typing.py:505-545): the branch for a parametric custom sort reads the
-   name, arity and arguments of the ROOT type, so it only works when that sort IS the root and
-   its arguments contain no further parametric custom sort; otherwise KeyError/AssertionError. *)
-Definition tnorm (t : ty) : option ty :=
-  match t with
-  | TUser n args => if existsb ty_has_param_user args then None else Some t
-  | _ => if ty_has_param_user t then None else Some t
-  end.
+(* TypeManager.normalize (typing.py:505-545, after commit 3ff3f2b): every component is rebuilt
+   from its own name, arity and arguments inside the target type manager; sorts are structural
+   values here, so the result is the sort itself.  (Declaring one sort name with two arities in
+   two environments is outside the model.)  Kept as an option: the callers treat a failure of
+   the type manager as an exception. *)
+Definition tnorm (t : ty) : option ty := Some t.
 
 Definition take2 (l : list id) (k : id -> id -> M id) : M id :=
   match l with a :: b :: _ => k a b | _ => fail EOth end.
